@@ -50,7 +50,7 @@ def coord(draw):
 @st.composite
 def document(draw):
     els_all = _elements()
-    n = draw(st.one_of(st.just(1), st.integers(2, 8), st.integers(2, 30)))
+    n = draw(st.one_of(st.just(1), st.integers(2, 8), st.integers(2, 30), st.integers(2, 30), st.sampled_from([130, 260, 300])))
     scheme = draw(st.sampled_from(["sequential", "shuffled", "sparse", "arbitrary", "positional-trap", "zero-based"]))
     if scheme == "sequential":
         ids = ["a%d" % (i + 1) for i in range(n)]
@@ -159,7 +159,7 @@ def oracle(doc, stats):
             raise Violation("path-vs-file", "%s and %s give different results" % (first[0], how))
     stats.count("ids:" + doc["scheme"])
     stats.count("bonds:" + doc["bond_kind"])
-    stats.count("atoms:%s" % ("1" if len(ids) == 1 else "2-8" if len(ids) <= 8 else "9-30"))
+    stats.count("atoms:%s" % ("1" if len(ids) == 1 else "2-8" if len(ids) <= 8 else "9-30" if len(ids) <= 30 else "128+"))
     seq = ids == ["a%d" % (i + 1) for i in range(len(ids))]
     if not seq or not doc["bonds"] or len(ids) == 1:
         stats.mark_nontrivial(doc)
